@@ -115,7 +115,7 @@ Definition authorize (c : cfg) (adm : bool) (actor level target : N) (o : op) : 
 
 (* the credential shapes of the matrix: a valid session cookie (user, level), a verified keymaster
    client-certificate chain, and an IP-restricted automation certificate (role CA; none of these
-   endpoints asks for AuthTypeIPCertificate, so it never admits anybody here).  Model/Auth.v has
+   endpoints asks for AuthTypeIPCertificate, so it never lets anybody in here).  Model/Auth.v has
    the full checkAuth; Proofs/Authz.v relates the two *)
 Inductive cred := NoCred | Session (user level : N) | KMCert (user : N) | IPCert (user : N).
 
